@@ -381,6 +381,18 @@ func (h *H) untypedCase(bs []byte, label string, meas bool) (accepted bool, deep
 		h.fail("oracle", "", "panic untyped", fmt.Sprintf("decoding hostile bytes into interface{} panics: %v (%s)", pan, label), []string{line})
 		return false, false
 	}
+	// rlp.Split (raw.go) against the model's header reader
+	{
+		k, content, rest, serr := rlp.Split(bs)
+		ans := h.ask("H " + hx(bs))
+		want := "err"
+		if serr == nil {
+			want = fmt.Sprintf("ok %v %d %d", k == rlp.List, len(content), len(bs)-len(content)-len(rest))
+		}
+		if got := ans; !(got == want || (want == "err" && strings.HasPrefix(got, "err"))) {
+			h.fail("correspondence", "", "split", fmt.Sprintf("rlp.Split (%s): real %s (%v), model %s", label, want, serr, ans), []string{line})
+		}
+	}
 	lean := h.ask("U " + hx(bs))
 	if h.err != nil {
 		return false, false
